@@ -8,11 +8,14 @@ import Golib.Gen.PackLayouts
 namespace C03GenSkel
 open Gen.Packs
 
-theorem skel_AbstractPack_Write : skel.AbstractPack_Write = Packs.Skeletons.AbstractPack_Write := rfl
-theorem skel_AbstractPack_Read : skel.AbstractPack_Read = Packs.Skeletons.AbstractPack_Read := rfl
+-- AbstractPack.Write / Read: no longer pinned as text — transcribed statement by statement and INTERPRETED
+-- (C03Gen.header_writer_interpreted / header_reader_interpreted, Golib/Layout/HeaderProg.lean)
 theorem skel_WritePack : skel.WritePack = Packs.Skeletons.WritePack := rfl
 theorem skel_ReadPack : skel.ReadPack = Packs.Skeletons.ReadPack := rfl
 theorem skel_ToBytesPack : skel.ToBytesPack = Packs.Skeletons.ToBytesPack := rfl
+theorem skel_LogSinkPack_GetContentBytes : skel.LogSinkPack_GetContentBytes = Packs.Skeletons.LogSinkPack_GetContentBytes := rfl
+theorem skel_LogSinkPack_SetContentBytes : skel.LogSinkPack_SetContentBytes = Packs.Skeletons.LogSinkPack_SetContentBytes := rfl
+theorem skel_ToBytesPackECB : skel.ToBytesPackECB = Packs.Skeletons.ToBytesPackECB := rfl
 theorem skel_ToPack : skel.ToPack = Packs.Skeletons.ToPack := rfl
 theorem skel_LogSinkPack_ResetTagHash : skel.LogSinkPack_ResetTagHash = Packs.Skeletons.LogSinkPack_ResetTagHash := rfl
 theorem skel_toHeaderBytes : skel.toHeaderBytes = Packs.Skeletons.toHeaderBytes := rfl
